@@ -253,3 +253,32 @@ Fixpoint dumps4 (n : nat) (j : json) : text :=
               ++ [10] ++ ind n ++ [125]
   | _ => render j
   end.
+
+(* ---- a decidable form of the hypothesis of the round-trip theorems (Proofs/JsonLoadsFacts.v wf_json; soundness proved there).
+   The extracted binary evaluates it on the documents the decode model produces. ---- *)
+Fixpoint jdepth (j : json) : nat :=
+  match j with
+  | JArr l => S (fold_right (fun x m => Nat.max (jdepth x) m) O l)
+  | JObj l => S (fold_right (fun kv m => Nat.max (jdepth (snd kv)) m) O l)
+  | _ => O
+  end.
+
+Fixpoint no_pairb (s : text) : bool :=
+  match s with
+  | c :: t => negb (is_high c && match t with d :: _ => is_low d | [] => false end) && no_pairb t
+  | [] => true
+  end.
+Definition wf_strb (s : text) : bool := forallb (fun c => c <? 1114112) s && no_pairb s.
+Definition digits_okb (z : Z) : bool := Nat.leb (length (dec (Z.abs_N z))) max_int_digits.
+Fixpoint nodupb (l : list text) : bool :=
+  match l with [] => true | x :: t => negb (existsb (text_eqb x) t) && nodupb t end.
+Fixpoint wfjb (j : json) : bool :=
+  match j with
+  | JNull | JBool _ => true
+  | JNum z => digits_okb z
+  | JFloat _ => false
+  | JStr s => wf_strb s
+  | JArr l => forallb wfjb l
+  | JObj l => forallb (fun kv => wf_strb (fst kv) && wfjb (snd kv)) l && nodupb (map fst l)
+  end.
+Definition wf_jsonb (j : json) : bool := wfjb j && Nat.leb (jdepth j) depth_limit.
